@@ -1078,10 +1078,9 @@ def _check_plumbing(check, an: Analysis):
     for cls_qn in (AFTER, BEFORE, MOMENT):
         init = an.method(cls_qn, '__init__')
         param = init.node.args.args[1].arg
-        stores = [n for n in ast.walk(init.node) if isinstance(n, ast.Assign)
-                  and ast.unparse(n.targets[0]) == 'self.date']
-        check.instance('L5', '%s.date' % cls_qn.rsplit('.', 1)[-1], len(stores) == 1 and
-                       ast.unparse(stores[0].value) == param, where_fn(init),
+        held = rules.constructor_field(an, cls_qn, 'date')
+        check.instance('L5', '%s.date' % cls_qn.rsplit('.', 1)[-1], held is not None and
+                       ast.unparse(held) == param, where_fn(init),
                        'the date is stored unchanged')
     init = an.method(DELAY, '__init__')
     param = init.node.args.args[1].arg
